@@ -165,6 +165,56 @@ def res(name, clause, ok, t0, reason, extra=None, backend="finite-check"):
 
 
 # ------------------------------------------------------------------------------------------
+def keyword_letters(pattern):
+    """letters the rule spells literally (outside character classes), e.g. "geography" for geography'...' """
+    from vc.automata import sre_parse, sre_c
+    out = []
+
+    def walk(items):
+        for op, av in items:
+            if op == sre_c.LITERAL and chr(av).isalpha():
+                out.append(chr(av))
+            elif op == sre_c.SUBPATTERN:
+                walk(av[3])
+            elif op in (sre_c.MAX_REPEAT, sre_c.MIN_REPEAT):
+                walk(av[2])
+            elif op == sre_c.BRANCH:
+                for alt in av[1]:
+                    walk(alt)
+    try:
+        walk(sre_parse.parse(pattern))
+    except Exception:
+        return ""
+    return "".join(out)
+
+
+SAMPLE_TOKENS = {"GEOGRAPHY": "geography'SRID=0;Point(1 2)'"}
+
+
+def case_pair_script(tok, kw):
+    sample = SAMPLE_TOKENS.get(tok)
+    return f"""
+import json
+from odata_query.grammar import ODataLexer
+sample = {sample!r}
+kw = {kw!r}
+bad = []
+if sample:
+    n = len(kw)
+    variants = [sample, sample[:n].upper() + sample[n:], sample[:1].upper() + sample[1:]]
+    vals = []
+    for v in variants:
+        try:
+            toks = list(ODataLexer().tokenize(v))
+            vals.append(repr(toks[0].value) if len(toks) == 1 else "split into %d tokens" % len(toks))
+        except Exception as ex:
+            vals.append(type(ex).__name__)
+    if len(set(vals)) != 1:
+        bad = [list(z) for z in zip(variants, vals)]
+print(json.dumps({{'violates': bool(bad), 'problems': bad}}))
+"""
+
+
 def action_normalises(c, facts, tok):
     """does the token action of `tok` build its node from the case-normalised text only?  (None: no action)"""
     rule = [r for r in facts.raw["lexer"]["rules"] if r["name"] == tok][0]
@@ -274,6 +324,24 @@ def run_family(facts, fam, tier):
             return [res(name, "rel.case", True, t0, "the spelling is stored raw: every consumer is checked for case-insensitivity "
                         f"(families pyval[{CASE_KINDS[tok]}], backend[*][{CASE_KINDS[tok]}])", {"source": src, "token": tok, "raw": True},
                         backend="pyvc (syntactic dependence)")]
+        kw = keyword_letters(rule["pattern"])
+        if kw:
+            # the rule spells a keyword (geography'...'): the value must not read those letters.  C06's contract of the action
+            # (value = a positional slice of the token text) is such a function; its obligation is re-run here and carried.
+            rs = [r for r in C06.run_family(facts, f"action[{tok}]", tier) if r.get("clause") in ("post.value", "unsupported", "safety.raise")]
+            out = []
+            for r in rs:
+                r = dict(r)
+                r["name"] = name + f"[value is a positional slice of the text: {r['clause']}]"
+                r["clause"] = "rel.case"
+                r["token"] = tok
+                if r["status"] == "refuted":
+                    r["native_script"] = case_pair_script(tok, kw)
+                    r["bound"] = f"{tok}: spellings of the keyword letters {kw!r}"
+                out.append(r)
+            if not out:
+                out.append({"name": name, "clause": "rel.case", "status": "undecided", "seconds": 0.0, "reason": "no value obligation for the action"})
+            return out
         # raw text of tokens without keyword letters in their value (strings, identifiers, digits, GUIDs): case is content
         return [res(name, "rel.case", True, t0, "the raw text is content, not keyword spelling (string / identifier / digits / hex)",
                     {"source": src, "token": tok, "raw": True}, backend="pyvc (syntactic dependence)")]
@@ -502,7 +570,7 @@ def bounded_case(facts):
 
 # ------------------------------------------------------------------------------------------
 def replay_spec(facts, r):
-    if r.get("bounded") and r.get("native_script"):
+    if r.get("native_script") and (r.get("bounded") or r.get("clause") == "rel.case"):
         return {"native_script": r["native_script"], "input_text": r.get("bound"), "required": "equal values for both spellings"}
     clause = r.get("clause")
     if clause in ("regex.op", "regex.opshadow", "regex.ws", "regex.kw") and (r.get("witness") or {}).get("text") is not None:
